@@ -1,10 +1,202 @@
 import PeptVerif.Model.ModDbGen
-/-! C15, glycan half: property theorems (being filled in) -/
+import PeptVerif.Lemmas.GlycanRT
+/-!
+C15, glycan half: property theorems.
+
+"A glycan formula parses to the monosaccharide counts it was written from whenever the written form is unambiguous,
+its composition and mass being the count-weighted sums over those monosaccharides, identically for names and
+synonyms."
+
+Table-independent statements are over an arbitrary vocabulary `names : List Str` / table `mono : List Entry`;
+facts about the generated monosaccharide table `Gen.Mono.entries` (27 entries, 20 synonyms) are kernel-evaluated.
+-/
 namespace C15Glycan
 open ModDb Formula
 
+local notation "MONO" => Gen.Mono.entries
+
+/-! ## the generated table -/
+
 /-- every monosaccharide name and synonym of the generated table is non-empty (the tokenizer loop advances) -/
 theorem names_nonempty : ∀ nm ∈ namesSorted Gen.Mono.entries, nm ≠ [] := by
+  decide +kernel
+
+/-- every name and every synonym of an entry resolves to that entry: names and synonyms are interchangeable keys -/
+theorem synonym_eq_name : ∀ e ∈ MONO,
+    monoEntry MONO e.name = some e ∧ ∀ s ∈ e.syns, monoEntry MONO s = some e := by
+  decide +kernel
+
+example : monoEntry MONO (str% "Fucose") = monoEntry MONO (str% "Fuc") := by decide +kernel
+
+/-- the 27 names and 20 synonyms are 47 different strings (no synonym is another entry's name or synonym) -/
+theorem names_synonyms_distinct : (MONO.map (·.name) ++ (MONO.map (·.syns)).flatten).Nodup := by
+  decide +kernel
+
+/-- every entry has a composition, a monoisotopic and an average mass -/
+theorem entries_complete : ∀ e ∈ MONO, e.comp.isSome = true ∧ e.mono.isSome = true ∧ e.avg.isSome = true := by
+  decide +kernel
+
+/-- every stored composition is a well-formed chemical formula -/
+theorem compositions_parse : ∀ e ∈ MONO, ∀ f, e.comp = some f → ∃ c, parseChem f [] = .ok c := by
+  intro e he f hf
+  have : ∀ e ∈ MONO, (match e.comp with
+      | some f => (match parseChem f [] with | .ok _ => true | .error _ => false)
+      | none => true) = true := by decide +kernel
+  have h := this e he
+  rw [hf] at h
+  cases hp : parseChem f [] with
+  | ok c => exact ⟨c, rfl⟩
+  | error er => simp only [hp] at h; cases h
+
+example : parseChem (str% "C8H13N1O5") [] =
+    .ok [(str% "C", Num.ofInt 8), (str% "H", Num.ofInt 13), (str% "N", Num.ofInt 1), (str% "O", Num.ofInt 5)] := by
+  decide +kernel
+
+/-- every vocabulary string (name or synonym) has a composition and both masses -/
+theorem vocabulary_known : ∀ nm ∈ namesSorted MONO,
+    (monoComp MONO nm).isSome = true ∧ (monoMass MONO true nm).isSome = true ∧
+      (monoMass MONO false nm).isSome = true := by
+  decide +kernel
+
+/-- no vocabulary string starts with a character that can be part of a count -/
+theorem names_start_no_count_char : ∀ nm ∈ namesSorted MONO, ∀ c r, nm = c :: r → isCountChar c = false := by
+  have : ∀ nm ∈ namesSorted MONO, (match nm with | c :: _ => isCountChar c | [] => false) = false := by
+    decide +kernel
+  intro nm h c r e
+  have := this nm h
+  subst e
+  exact this
+
+/-! ## 1. the vocabulary is searched longest first -/
+
+/-- the vocabulary consists of exactly the names and synonyms of the table -/
+theorem namesSorted_mem (db : List Entry) (nm : Str) :
+    nm ∈ namesSorted db ↔ ∃ e ∈ db, nm = e.name ∨ nm ∈ e.syns :=
+  mem_namesSorted db nm
+
+/-- `namesSorted` is ordered by length, longest first (names of 10^6 characters and more would be mis-sorted by the
+model's sort key `1000000 - length`, hence the bound) -/
+theorem namesSorted_sorted (db : List Entry) (hlen : ∀ nm ∈ namesSorted db, nm.length ≤ 1000000) :
+    (namesSorted db).Pairwise (fun a b => b.length ≤ a.length) :=
+  namesSorted_lenDesc db hlen
+
+theorem namesSorted_sorted_gen : (namesSorted MONO).Pairwise (fun a b => b.length ≤ a.length) := by
+  apply namesSorted_lenDesc
+  decide +kernel
+
+/-- in a longest-first vocabulary, the name the tokenizer takes (the first that is a prefix of the remaining text) is a
+longest vocabulary name that is a prefix of the text -/
+theorem longest_first (names : List Str) (text nm : Str)
+    (hs : names.Pairwise (fun a b => b.length ≤ a.length))
+    (h : names.find? (fun n => n.isPrefixOf text) = some nm) :
+    nm ∈ names ∧ nm.isPrefixOf text = true ∧
+      ∀ nm' ∈ names, nm'.isPrefixOf text = true → nm'.length ≤ nm.length :=
+  find_longest names text hs nm h
+
+/-- … and it is the only such name: whatever vocabulary name is a prefix of the text and has no longer competitor is
+the one taken -/
+theorem longest_first_unique (names : List Str) (text nm : Str)
+    (hs : names.Pairwise (fun a b => b.length ≤ a.length)) (hmem : nm ∈ names)
+    (hp : nm.isPrefixOf text = true)
+    (hmax : ∀ nm' ∈ names, nm'.isPrefixOf text = true → nm'.length ≤ nm.length) :
+    names.find? (fun n => n.isPrefixOf text) = some nm :=
+  find_eq_of_longest names text hs nm hmem hp hmax
+
+example : (namesSorted MONO).find? (fun n => n.isPrefixOf (str% "HexNAc2Hex3")) = some (str% "HexNAc") := by
+  decide +kernel
+example : (namesSorted MONO).find? (fun n => n.isPrefixOf (str% "Neu5Ac1")) = some (str% "Neu5Ac") := by
+  decide +kernel
+
+/-! ## 4. mass = count-weighted sum -/
+
+/-- `glycan_mass` of a dict whose keys all have a mass is `Σ mass(k) · v` -/
+theorem glycan_mass_linear (mono : List Entry) (isMono : Bool) (g : Comp)
+    (h : ∀ kv ∈ g, (monoMass mono isMono kv.1).isSome = true) :
+    glycanMassDict mono isMono g = .ok (massSum mono isMono g) :=
+  glycanMassDict_eq_sum mono isMono g h
+
+/-- for the generated table: any dict over names and synonyms, any counts -/
+theorem glycan_mass_linear_gen (isMono : Bool) (g : Comp) (h : ∀ kv ∈ g, kv.1 ∈ namesSorted MONO) :
+    glycanMassDict MONO isMono g = .ok (massSum MONO isMono g) := by
+  apply glycanMassDict_eq_sum
+  intro kv hkv
+  have := vocabulary_known kv.1 (h kv hkv)
+  cases isMono
+  · exact this.2.2
+  · exact this.2.1
+
+example : ∀ kv ∈ [(str% "HexNAc", Num.ofInt 2), (str% "Hex", Num.ofInt 3), (str% "NeuAc", (⟨3/2, true⟩ : Num))],
+    kv.1 ∈ namesSorted MONO := by decide +kernel
+
+/-- the mass of a concatenated dict is the sum of the masses (errors: the first one in evaluation order… the model
+evaluates the tail first, so the error of `g₁` is reported in preference) -/
+theorem glycan_mass_append (mono : List Entry) (isMono : Bool) (g₁ g₂ : Comp) :
+    glycanMassDict mono isMono (g₁ ++ g₂) =
+      (match glycanMassDict mono isMono g₁, glycanMassDict mono isMono g₂ with
+       | .ok a, .ok b => .ok (a + b)
+       | .error e, _ => .error e
+       | .ok _, .error e => .error e) :=
+  glycanMassDict_append mono isMono g₂ g₁
+
+theorem glycan_mass_sum_append (mono : List Entry) (isMono : Bool) (g₁ g₂ : Comp) :
+    massSum mono isMono (g₁ ++ g₂) = massSum mono isMono g₁ + massSum mono isMono g₂ :=
+  massSum_append mono isMono g₁ g₂
+
+/-! ## 3. composition = count-weighted sum -/
+
+/-- `_glycan_comp` of a dict whose keys all have a composition: the fold that adds `n · v` for every element `(el, n)`
+of every item `(k, v)` -/
+theorem glycan_comp_fold (mono : List Entry) (g acc : Comp)
+    (h : ∀ kv ∈ g, (monoComp mono kv.1).isSome = true) :
+    glycanCompDict mono g acc = .ok (compFold mono g acc) :=
+  glycanCompDict_eq_fold mono g acc h
+
+/-- linearity: the count of every element `el` in the result is `Σ n_k(el) · v` over the items `(k, v)` -/
+theorem glycan_comp_linear (mono : List Entry) (g : Comp) (el : Str)
+    (h : ∀ kv ∈ g, (monoComp mono kv.1).isSome = true) :
+    ∃ c, glycanCompDict mono g [] = .ok c ∧ compVal c el = compSum mono g el := by
+  refine ⟨compFold mono g [], glycanCompDict_eq_fold mono g [] h, ?_⟩
+  rw [compVal_compFold, compVal_nil]
+  ring
+
+theorem glycan_comp_linear_gen (g : Comp) (el : Str) (h : ∀ kv ∈ g, kv.1 ∈ namesSorted MONO) :
+    ∃ c, glycanCompDict MONO g [] = .ok c ∧ compVal c el = compSum MONO g el :=
+  glycan_comp_linear MONO g el (fun kv hkv => (vocabulary_known kv.1 (h kv hkv)).1)
+
+example : glycanCompDict MONO [(str% "HexNAc", Num.ofInt 2), (str% "Fucose", Num.ofInt 1)] [] =
+    .ok [(str% "C", Num.ofInt 22), (str% "H", Num.ofInt 36), (str% "N", Num.ofInt 2), (str% "O", Num.ofInt 14)] := by
+  decide +kernel
+
+/-- the composition of a concatenated dict continues the fold -/
+theorem glycan_comp_append (mono : List Entry) (g₁ g₂ acc : Comp) :
+    glycanCompDict mono (g₁ ++ g₂) acc =
+      (match glycanCompDict mono g₁ acc with
+       | .ok a => glycanCompDict mono g₂ a
+       | .error e => .error e) :=
+  glycanCompDict_append mono g₂ g₁ acc
+
+theorem glycan_comp_sum_append (mono : List Entry) (g₁ g₂ : Comp) (el : Str) :
+    compSum mono (g₁ ++ g₂) el = compSum mono g₁ el + compSum mono g₂ el :=
+  compSum_append mono g₁ g₂ el
+
+/-! ## 5. names and synonyms give identical results -/
+
+/-- rewriting keys without changing the entry they resolve to changes neither composition nor mass -/
+theorem synonym_invariant (mono : List Entry) (f : Str → Str) (g acc : Comp) (isMono : Bool)
+    (h : ∀ kv ∈ g, monoEntry mono (f kv.1) = monoEntry mono kv.1) :
+    glycanCompDict mono (mapKeys f g) acc = glycanCompDict mono g acc ∧
+      glycanMassDict mono isMono (mapKeys f g) = glycanMassDict mono isMono g :=
+  ⟨glycanCompDict_congr mono f g acc h, glycanMassDict_congr mono isMono f g h⟩
+
+/-- for the generated table: replacing every key by the name of its entry (`canon`) changes nothing -/
+theorem synonym_invariant_gen (g acc : Comp) (isMono : Bool) :
+    glycanCompDict MONO (mapKeys (canon MONO) g) acc = glycanCompDict MONO g acc ∧
+      glycanMassDict MONO isMono (mapKeys (canon MONO) g) = glycanMassDict MONO isMono g :=
+  synonym_invariant MONO (canon MONO) g acc isMono
+    (fun kv _ => monoEntry_canon MONO (fun e he => (synonym_eq_name e he).1) kv.1)
+
+example : mapKeys (canon MONO) [(str% "Fucose", Num.ofInt 1), (str% "S", Num.ofInt 2), (str% "Hex", Num.ofInt 3)] =
+    [(str% "Fuc", Num.ofInt 1), (str% "sulfate", Num.ofInt 2), (str% "Hex", Num.ofInt 3)] := by
   decide +kernel
 
 end C15Glycan
